@@ -155,6 +155,20 @@ class Opt:
         self.value = value
 
 
+class OpaqueFn:
+    """a local lambda the contract declares irrelevant (message formatting): calling it yields an opaque token"""
+    is_value = True
+
+    def __init__(self, name):
+        self.name = name
+
+    def havoc(self, ctx, name):
+        return self
+
+    def call(self, I, args, n):
+        return I.ctx.fresh(self.name + "_result")
+
+
 class InitList(list):
     """a braced list of values (array temporary behind std::initializer_list)"""
 
@@ -581,6 +595,8 @@ class Interp:
             v = self.k.default_value(self, qt, d)
             if v is None:
                 raise Gap("uninitialised local %s of type %s (line %s)" % (name, qt, extract.line_of(d)))
+        elif name in getattr(self.k, "opaque_lambdas", ()) and init[0].get("kind") in ("LambdaExpr", "ExprWithCleanups"):
+            v = OpaqueFn(name)
         else:
             v = self.expr(init[0])
         if is_ref:
@@ -1059,6 +1075,8 @@ class Interp:
                     raise PathEnd()
             elif hasattr(base, "arrow"):
                 base = base.arrow(self)
+            elif isinstance(base, z3.ExprRef) and hasattr(self.k, "deref_int"):
+                base = self.k.deref_int(self, base, n)
             else:
                 raise Gap("-> on %r (line %s)" % (base, extract.line_of(n)))
         if isinstance(base, Loc):
@@ -1677,8 +1695,8 @@ class Interp:
             if args:
                 return self.k.to_string(self, ctx.rv(args[0]))
             return self.k.string_literal(self, "")
-        if qt.startswith("std::span<") and len(args) == 1:
-            return ctx.rv(args[0])  # a view of the container it is built from
+        if qt.startswith("std::span<") and len(args) in (1, 2):
+            return ctx.rv(args[0])  # a view of the container it is built from ({data(), size()} or the container)
         if len(args) == 1:
             a0t = strip_type(type_of(kids(n)[0]))
             last = lambda t: re.sub(r"<.*$", "", t).split("::")[-1]
@@ -1719,6 +1737,8 @@ class Interp:
         args = [ctx.rv(self.expr(a)) for a in kids(n)]
         if (qt.startswith("std::pair<") or qt.startswith("pair<")) and len(args) == 2:
             return Pair(args[0], args[1])
+        if qt.startswith("std::span<") and len(args) in (1, 2):
+            return args[0]
         if re.search(r"\[\d*\]$", qt):
             return InitList(args)
         if len(args) == 1:
